@@ -108,8 +108,8 @@ def design_jobs(ctx):
         jobs.append(("stack_mc", "RAStackMC", stack_cfg(ctx, "stack_mc", [4, 12], [0, 16], [1, 3], [5], "MCDeltas", 3, 8), "ok", 8))
         jobs.append(("stack_mc4", "RAStackMC", stack_cfg(ctx, "stack_mc4", [4, 16], [4, 16], [1], [5], "MCDeltas", 4, 7), "ok", 6))
     else:
-        jobs.append(("stack_mc", "RAStackMC", stack_cfg(ctx, "stack_mc", [4, 8, 12], [0, 4, 16], [0, 1, 3], [5], "MCDeltas", 3, 12), "ok", 12))
-        jobs.append(("stack_mc4", "RAStackMC", stack_cfg(ctx, "stack_mc4", [4, 16], [1, 4, 16], [0, 1], [5], "MCDeltas", 4, 12), "ok", 6))
+        jobs.append(("stack_mc", "RAStackMC", stack_cfg(ctx, "stack_mc", [4, 8, 12], [0, 4, 16], [1, 3], [5], "MCDeltas", 3, 12), "ok", 12))
+        jobs.append(("stack_mc4", "RAStackMC", stack_cfg(ctx, "stack_mc4", [4, 16], [4, 16], [0, 1], [5], "MCDeltas", 4, 8), "ok", 6))
         jobs.append(("stack_mc_desc", "RAStackMC", stack_cfg(ctx, "stack_mc_desc", [4, 12], [0, 16], [1, 3], [5], "MCDeltas", 3, 12, variant="desc"), "ok", 4))
     small = dict(sizes=[4, 8, 12], aligns=[0, 4, 16], flags=[0, 1, 3], ucs=[5], deltas="MCDeltas", maxslots=3, maxops=8)
     for v in ("gapfix", "noalign", "argmove"):
